@@ -9,6 +9,7 @@ under the assignment `a` iff some disjunct of `r` that is not pure `(-1,-1)` pad
 non-padding literals `(u, c)` satisfied (`a[u] = c`).  `WellPadded p` is the array invariant: every row
 has exactly `nDisj × nConj` literals, each either `(-1,-1)` or a literal over a unit `< nUnits`.
 
+* `C05_rowSem_iff`: the specification in words (the sentence above), as an `↔`.
 * `C05_main`: on a well padded container and an assignment vector of the right length with
   non-negative entries, `query` returns (without raising) the mask whose entry for row `i` is the truth
   value of row `i`'s formula.  The proof goes through the NumPy mechanics modelled in `query`: the
@@ -32,6 +33,12 @@ has exactly `nDisj × nConj` literals, each either `(-1,-1)` or a literal over a
 
 namespace DsProofs.C05
 open Ds Ds.Prov
+
+/-- the specification `rowSem` spelled out -/
+theorem C05_rowSem_iff (a : List Nat) (r : Row) :
+    rowSem a r = true ↔
+      ∃ c ∈ r, (∃ l ∈ c, l ≠ padLit) ∧ ∀ l ∈ c, l = padLit ∨ a.getD l.1.toNat 0 = l.2.toNat :=
+  rowSem_iff a r
 
 theorem C05_main (p : P) (vals : List Int) (hp : WellPadded p) (hlen : vals.length = p.nUnits)
     (hpos : ∀ v ∈ vals, 0 ≤ v) :
